@@ -79,5 +79,5 @@ DecodeSafe(b) ==
 ByteSyms(b) == <<>> \o [i \in 1..Len(b) |-> <<i, b[i]>>]
 
 \* character boundaries of a UTF-8 byte text (C08)
-CharBoundaries(b) == {0} \cup {DecodeAll(b)[k][1] : k \in 1..Len(DecodeAll(b))}
+CharBoundaries(b) == CharStarts(b) \cup {Len(b)}
 =============================================================================
